@@ -1,5 +1,5 @@
 //! unit: u01j
-//! properties: C01 C03 C12 C10
+//! properties: C01 C03 C12 C10 C02
 //! note: which pending HTLCs count towards the next commitment and which are already folded into the balance (ChannelContext::get_next_commitment_htlcs vs get_next_commitment_value_to_self_msat): every pending HTLC is represented exactly once
 //! trusted: R15 (statement slicing): both functions are iterator chains over the channel's HTLC vectors; the unit extracts, on every run, the four `match (state, local)` predicates (the bodies of the `.filter(..)` closures) verbatim into four predicate functions over the real state enums and proves the exactly-once relation between them; the surrounding map/sum/chain plumbing is dropped and not claimed
 //! trusted: payload types of the state enums (InboundHTLCResolution, InboundUpdateAdd, OnionErrorPacket, OnionPacket, PaymentPreimage, AttributionData, HTLCFailReason) are opaque
@@ -190,6 +190,10 @@ pub struct OutboundHTLCOutput { pub htlc_id: u64, pub amount_msat: u64, pub paym
 //@ensures P C01 an-outbound-htlc-leaves-the-channel-state-when-its-removal-is-revoked-and-debits-its-amount-from-us-exactly-if-the-peer-fulfilled-it
     r.0 == !(htlc.state is AwaitingRemovedRemoteRevoke),
     r.1 == value_to_self_msat_diff_ - (if htlc.state is AwaitingRemovedRemoteRevoke && htlc.state->AwaitingRemovedRemoteRevoke_0 is Success { htlc.amount_msat as int } else { 0 }),
+//@ensures P C02,C03 a-forwarded-htlc-is-reported-for-failing-back-upstream-exactly-when-the-peer-irrevocably-removed-it-as-failed-and-for-finalizing-exactly-when-it-was-fulfilled
+    final(revoked_htlcs)@.len() == old(revoked_htlcs)@.len() + (if htlc.state is AwaitingRemovedRemoteRevoke && htlc.state->AwaitingRemovedRemoteRevoke_0 is Failure { 1int } else { 0int }),
+    final(finalized_claimed_htlcs)@.len() == old(finalized_claimed_htlcs)@.len() + (if htlc.state is AwaitingRemovedRemoteRevoke && htlc.state->AwaitingRemovedRemoteRevoke_0 is Success { 1int } else { 0int }),
+    forall|k: int| 0 <= k < old(revoked_htlcs)@.len() ==> final(revoked_htlcs)@[k] == old(revoked_htlcs)@[k],
 //@mutant fulfilled_outbound_htlc_not_debited
     value_to_self_msat_diff -= htlc.amount_msat as i64;
 //@with
